@@ -98,12 +98,12 @@ package tracer
 // trace: keeps the representation invariant for any chunk of any length, never touches the
 // caller's bytes (the prefix buffer is the tracer's own), only adds events.
 //@ func (*dataTracer).trace
-//@   requires wfTracer(d) && !held[d.mu]
+//@   requires d != nil && !held[d.mu] && (wfTracer(d) || (d.builder == nil && !d.isStreamProtocol)) //# without builder (no headers seen yet) the bytes are only counted
 //@   requires len(data) > 0 ==> slicebase(data) != slicebase(d.prefix) //# the tracer's private prefix buffer is not the caller's buffer
 //@   modifies trS, held, dataTracer.prefix, dataTracer.env, dataTracer.expecting, dataTracer.actual, dataTracer.endStream, []byte, Envelope.*, bufContent,
 //@            ghosts:cpl*, held, Trace.*, evN, evKind, evLen, evEnv, builder.*, RequestBodyData.*, ResponseBodyData.*, ResponseBodyEndStream.*, eventOffset.*, []Event, http.Request.*
 //@   assume_ensures trS == old(trS)[d := old(trS[d]) + bytes(data)] //# ghost bookkeeping: the byte stream seen by this tracer
-//@   ensures wfTracer(d) && !held[d.mu]
+//@   ensures (old(d.builder) != nil ==> wfTracer(d)) && !held[d.mu] && d.builder == old(d.builder) && d.isStreamProtocol == old(d.isStreamProtocol)
 //@   ensures @events evN[d.builder] >= old(evN[d.builder])
 //@   ensures @untouched unchangedArray(data)
 //@   ensures @count !d.isStreamProtocol && old(d.actual) + len(data) <= 18446744073709551615 ==> d.actual == old(d.actual) + len(data) && evN[d.builder] == old(evN[d.builder])
@@ -118,10 +118,10 @@ package tracer
 // emitUnfinished: at most one final partial event carrying the bytes actually seen (prefix
 // bytes, or payload bytes of the open envelope); afterwards the machine is idle.
 //@ func (*dataTracer).emitUnfinished
-//@   requires wfTracer(d) && !held[d.mu]
+//@   requires d != nil && !held[d.mu] && (wfTracer(d) || (d.builder == nil && !d.isStreamProtocol && d.actual == 0 && len(d.prefix) == 0)) //# an idle tracer without builder has nothing to emit
 //@   modifies held, dataTracer.prefix, dataTracer.env, dataTracer.expecting, dataTracer.actual, dataTracer.endStream,
 //@            ghosts:cpl*, held, Trace.*, evN, evKind, evLen, evEnv, builder.*, RequestBodyData.*, ResponseBodyData.*, eventOffset.*, []Event, http.Request.*
-//@   ensures wfTracer(d) && !held[d.mu]
+//@   ensures (old(d.builder) != nil ==> wfTracer(d)) && !held[d.mu] && d.builder == old(d.builder)
 //@   ensures @idle d.expecting == 0 && d.actual == 0 && len(d.prefix) == 0 && d.env == nil && d.endStream == nil
 //@   ensures @atmostone evN[d.builder] >= old(evN[d.builder]) && evN[d.builder] <= old(evN[d.builder]) + 1
 //@   ensures forall o *builder :: o != d.builder ==> evN[o] == old(evN[o])
